@@ -794,8 +794,13 @@ static int replay_one(const std::string &r)
   } else if (kind == "reuse") {
     replay_reuse(arg);
   } else if (kind == "leak") {
-    printf("a leak report belongs to a whole shard (%s); re-run the unit to reproduce it\n", arg.c_str());
-    return 1;
+    // a leak report belongs to a whole shard; reproduce it on one representative history
+    printf("leak reports are per shard (%s); replaying malloc/free of three blocks and a vector history, then the leak check\n", arg.c_str());
+    int rc = replay_one("raw:m4097a64,m64a4096,m1a1,f1,f0,f2");
+    int vops[] = {V_RESIZE500, V_COPY, V_SHRINK, V_CLEAR};
+    run_vec(4, vops, 4, "vec:72:dysk");
+    leak_check("replayed histories");
+    return vr::S().viols.empty() ? rc : 1;
   } else {
     printf("unknown replay kind '%s'\n", kind.c_str());
     return 2;
